@@ -399,6 +399,27 @@ func extractResources(p *pkgs, f *facts) {
 	if stop := p.fn("GRPCServer", "Stop"); stop != nil {
 		iSrv := topIndexOfCall(stop.Body, "s.server.Stop")
 		iBrk := topIndexOfCall(stop.Body, "s.broker.Close")
+		if iBrk < 0 {
+			// one level of helper: a method of GRPCServer called at top level that closes (a copy of) s.broker
+			for i, st := range stop.Body.List {
+				es, ok := st.(*ast.ExprStmt)
+				if !ok {
+					continue
+				}
+				ce, ok := es.X.(*ast.CallExpr)
+				if !ok {
+					continue
+				}
+				sel, ok := ce.Fun.(*ast.SelectorExpr)
+				if !ok || exprString(sel.X) != "s" {
+					continue
+				}
+				if h := p.fn("GRPCServer", sel.Sel.Name); h != nil && helperClosesBroker(h) {
+					iBrk = i
+					break
+				}
+			}
+		}
 		serveClosesDone := false
 		if sv := p.fn("GRPCServer", "Serve"); sv != nil {
 			_, plain := deferredCalls(sv)
@@ -633,4 +654,24 @@ func extractResources(p *pkgs, f *facts) {
 	js["goSiteCount"] = len(descs)
 	js["notes"] = note
 	f.set("resources", js)
+}
+
+// helperClosesBroker: the function closes s.broker, directly or through a local copied from it.
+func helperClosesBroker(fn *ast.FuncDecl) bool {
+	calls := nodeCalls(fn.Body)
+	if strings.Contains(calls, "s.broker.Close()") {
+		return true
+	}
+	found := false
+	ast.Inspect(fn.Body, func(n ast.Node) bool {
+		as, ok := n.(*ast.AssignStmt)
+		if !ok || len(as.Lhs) != 1 || len(as.Rhs) != 1 || exprString(as.Rhs[0]) != "s.broker" {
+			return true
+		}
+		if strings.Contains(calls, exprString(as.Lhs[0])+".Close()") {
+			found = true
+		}
+		return true
+	})
+	return found
 }
